@@ -325,6 +325,27 @@ func (s *Script) render(extra []string, getValues []string) string {
 		}
 		b.WriteString("))\n")
 	}
+	// consttext(s): s is built from string literals of the program text only (literals and their concatenations); used to
+	// state that a message shown to a client carries no run-time text such as a storage error
+	usesCtext := false
+	for _, a := range s.asserts {
+		if strings.Contains(a, "(ctext ") {
+			usesCtext = true
+			break
+		}
+	}
+	for _, a := range extra {
+		if strings.Contains(a, "(ctext ") {
+			usesCtext = true
+		}
+	}
+	if usesCtext {
+		b.WriteString("(declare-fun ctext (Str) Bool)\n(assert (ctext emptystr))\n")
+		for _, l := range lits {
+			fmt.Fprintf(&b, "(assert (ctext %s))\n", l.name)
+		}
+		b.WriteString("(assert (forall ((a Str) (b Str)) (! (=> (and (ctext a) (ctext b)) (ctext (cat a b))) :pattern ((cat a b)))))\n")
+	}
 	for _, d := range s.decls {
 		b.WriteString(d)
 		b.WriteByte('\n')
